@@ -14,7 +14,7 @@ s = open(p).read()
 if s.count(old) < 1:
     print("pattern not found in", rel); shutil.rmtree(dst); sys.exit(3)
 open(p, "w").write(s.replace(old, new, 1))
-env = dict(os.environ, VOTEKIT_SRC=dst + "/src")
+env = dict(os.environ, VOTEKIT_SRC=dst + "/src", VERIF_OUT=dst + "/out", VERIF_EVID=dst + "/evidence")
 r = subprocess.run(["/verif/check", pid] + sys.argv[5:], env=env, capture_output=True, text=True)
 shutil.rmtree(dst)
 lines = (r.stdout + r.stderr).strip().splitlines()
